@@ -246,3 +246,16 @@ package s2
 //@   loop 1: invariant [swapped] forall k int :: 0 <= k && k < len(l.vertices) ==> vcSame(l.vertices[k], vcIf(k > i && k < len(l.vertices)-1-i, vcPreElem(old(l.vertices), len(l.vertices)-1-k), vcPreElem(old(l.vertices), k)))
 
 //@ property C13
+
+// ---------------------------------------------------------------- Polygon.Invert on the two special polygons
+
+// The empty and the full polygon are replaced wholesale when inverted; the replacement must be initialised like any other
+// polygon (bound, sub-region bound, index), or every later query on it dereferences a nil index. (The general case -
+// choosing the loop to invert by turning angle and re-nesting the others - is numerical and not under contract.)
+//@ func (p *Polygon) Invert()
+//@   requires p != nil && (len(p.loops) == 0 || (len(p.loops) == 1 && p.loops[0] != nil && len(p.loops[0].vertices) == 1 && p.loops[0].originInside)) && vcRectConsts()
+//@   modifies *p
+//@   noframe
+//@   ensures [initialised] p.index != nil && vcSI(p.index) && p.index.nextID == 1 && vcSame(p.subregionBound, ExpandForSubregions(p.bound))
+//@   ensures [empty-becomes-full] old(len(p.loops)) == 0 ==> len(p.loops) == 1
+//@   ensures [full-becomes-empty] old(len(p.loops)) == 1 ==> len(p.loops) == 0
